@@ -61,4 +61,13 @@ func runC18(c *rules.Ctx) {
 	c.HasCall(DV, "minttypes.BankKeeper.AddSupplyOffset", []string{"_", "ctx", "totalMintedCoin.Denom", "minttypes.BankKeeper.GetBalance(...).Amount"}, true, "supply offset +vesting balance before the pay-outs", "plus")
 	c.HasCall(DV, "minttypes.BankKeeper.AddSupplyOffset", []string{"_", "ctx", "totalMintedCoin.Denom", "sdkmath.Int.Neg(minttypes.BankKeeper.GetBalance(...).Amount)"}, true, "supply offset −vesting balance after the pay-outs", "minus")
 	c.NeverAfter(DV, "minttypes.BankKeeper.AddSupplyOffset[3=sdkmath.Int.Neg(_)]", "minttypes.BankKeeper.SendCoinsFromModuleToAccount", "no pay-out after the closing supply offset")
+	// community-pool branches of the developer share: whole share when no receiver is configured, the weighted portion for
+	// an empty-address receiver
+	c.Let("PORTION", "mintkeeper.getProportions({DEVCOIN}, elem(developerRewardsReceivers).Weight)#0")
+	c.CallWhere(DV, "minttypes.CommunityPoolKeeper.FundCommunityPool", 2, "sdk.NewCoins({PORTION})", 2, "sdk.NewCoins({PORTION})", "an empty-address receiver sends exactly its weighted portion to the community pool", "portion")
+	c.OnlyWhen(DV, "minttypes.CommunityPoolKeeper.FundCommunityPool[2=sdk.NewCoins({PORTION})]", "eq(elem(developerRewardsReceivers).Address, \"\")", "…and only for an empty address")
+	c.OnlyWhen(DV, "minttypes.CommunityPoolKeeper.FundCommunityPool[2=sdk.NewCoins({DEVCOIN})]", "eq(len(developerRewardsReceivers),0)", "the whole developer share goes to the community pool only when no receiver is configured")
+	c.CallArg(DV, "minttypes.CommunityPoolKeeper.FundCommunityPool", 3, "minttypes.AccountKeeper.GetModuleAddress(k.accountKeeper,\"developer_vesting_unvested\")", "community-pool funding of developer rewards comes from the vesting account")
+	// the reduction clock starts at the start epoch, whatever genesis said
+	c.ReachedWhen(H, "mintkeeper.Keeper.setLastReductionEpochNum", "eq(epochIdentifier, {PARAMS}.EpochIdentifier) & eq(epochNumber, {PARAMS}.MintingRewardsDistributionStartEpoch) & le({PARAMS}.MintingRewardsDistributionStartEpoch, epochNumber)", "at the start epoch the last-reduction epoch is always (re)set to it, so the first reduction comes one full period later")
 }
